@@ -1,6 +1,6 @@
 CONSTANTS
 Bins = 3
-MaxBin = 7
+MaxBin = 6
 MaxEvents = 5
 Mutant = 0
 INIT Init
